@@ -247,11 +247,12 @@ static enum MHD_Result handler (void *cls, struct MHD_Connection *c, const char 
     ST (sg_entered[r->phase], 1);
     while (! LD (sg_release[r->phase])) usleep (300);
     return MHD_queue_response (c, MHD_HTTP_OK, resp_static);
-  case 'a':
+  case 'a':      /* digest auth, MD5 (nonce of 44 characters) */
+  case 'A':      /* digest auth, SHA-256 (nonce of 76 characters) on the SAME nonce table */
   {
     enum MHD_DigestAuthResult res;
-    res = MHD_digest_auth_check3 (c, REALM, "user", "pass", 300, 0, MHD_DIGEST_AUTH_MULT_QOP_AUTH,
-                                  MHD_DIGEST_AUTH_MULT_ALGO3_MD5);
+    const enum MHD_DigestAuthMultiAlgo3 malgo = ('A' == r->kind) ? MHD_DIGEST_AUTH_MULT_ALGO3_SHA256 : MHD_DIGEST_AUTH_MULT_ALGO3_MD5;
+    res = MHD_digest_auth_check3 (c, REALM, "user", "pass", 300, 0, MHD_DIGEST_AUTH_MULT_QOP_AUTH, malgo);
     INC (n_auth_chk);
     INC (auth_res[(res + 40) % 32]);
     if (MHD_DAUTH_OK == res)
@@ -265,7 +266,7 @@ static enum MHD_Result handler (void *cls, struct MHD_Connection *c, const char 
       if (NULL == ar) return MHD_NO;
       qr = MHD_queue_auth_required_response3 (c, REALM, "opq", NULL, ar,
                                               (MHD_DAUTH_NONCE_STALE == res) ? MHD_YES : MHD_NO,
-                                              MHD_DIGEST_AUTH_MULT_QOP_AUTH, MHD_DIGEST_AUTH_MULT_ALGO3_MD5,
+                                              MHD_DIGEST_AUTH_MULT_QOP_AUTH, malgo,
                                               MHD_NO, MHD_YES);
       MHD_destroy_response (ar);
       return qr;
@@ -282,6 +283,43 @@ static enum MHD_Result handler (void *cls, struct MHD_Connection *c, const char 
   default:
     return MHD_queue_response (c, MHD_HTTP_OK, resp_static);
   }
+}
+
+/* ------------------------------------------------------------- digest client */
+static long n_mixed_len, n_sha_chk_sent, n_md5_chk_sent;
+static int last_nonce_len;     /* length of the nonce most recently handed out by the daemon (to any client) */
+
+static void hashhex (int sha256, const char *str, char *out /* 65 */)
+{
+  unsigned char dg[32];
+  int i, n = sha256 ? 32 : 16;
+  if (0 != gnutls_hash_fast (sha256 ? GNUTLS_DIG_SHA256 : GNUTLS_DIG_MD5, str, strlen (str), dg)) memset (dg, 0, sizeof (dg));
+  for (i = 0; i < n; i++) snprintf (out + 2 * i, 3, "%02x", dg[i]);
+}
+
+/* GET /a (MD5) or /A (SHA-256) with an Authorization header for `nonce`; right != 0: the correct response */
+static int build_auth_req (char *req, size_t req_sz, char kind, const char *nonce, unsigned ncv, unsigned cn, int right)
+{
+  const int sha = ('A' == kind);
+  char rsp[65];
+  memset (rsp, '0', sizeof (rsp)); rsp[sha ? 64 : 32] = 0;
+  if (right)
+  {
+    char ha1[65], ha2[65], tmp[640];
+    hashhex (sha, "user:" REALM ":pass", ha1);
+    hashhex (sha, sha ? "GET:/A" : "GET:/a", ha2);
+    snprintf (tmp, sizeof (tmp), "%s:%s:%08x:c%u:auth:%s", ha1, nonce, ncv, cn, ha2);
+    hashhex (sha, tmp, rsp);
+  }
+  /* a short (MD5) nonce presented while the daemon's most recent nonce is a long (SHA-256) one: with a
+   * one-slot table the slot now holds the longer nonce (mixed-length slot collision) */
+  if (strlen (nonce) < (size_t) LD (last_nonce_len)) INC (n_mixed_len);
+  if (sha) INC (n_sha_chk_sent); else INC (n_md5_chk_sent);
+  return snprintf (req, req_sz,
+                   "GET /%c HTTP/1.1\r\nHost: h\r\nAuthorization: Digest username=\"user\", realm=\"" REALM "\", "
+                   "nonce=\"%s\", uri=\"/%c\", qop=auth, nc=%08x, cnonce=\"c%u\", algorithm=%s, "
+                   "response=\"%s\", opaque=\"opq\"\r\n\r\n",
+                   kind, nonce, kind, ncv, cn, sha ? "SHA-256" : "MD5", rsp);
 }
 
 /* ----------------------------------------------------------------- clients */
@@ -366,15 +404,6 @@ static int read_response (int fd, char *nonce, size_t nonce_sz, long *body_len, 
 
 static unsigned expect_sum_static, expect_sum_cb, expect_sum_fd;
 
-static void md5hex (const char *str, char out[33])
-{
-  unsigned char dg[16];
-  int i;
-  if (0 != gnutls_hash_fast (GNUTLS_DIG_MD5, str, strlen (str), dg)) memset (dg, 0, sizeof (dg));
-  for (i = 0; i < 16; i++) snprintf (out + 2 * i, 3, "%02x", dg[i]);
-}
-
-
 static uint32_t pick_ip (struct cl *me)
 {
   unsigned b = 1u + (unsigned) (me->id % 4), c = 1u + (rand_r (&me->seed) % 8u);
@@ -435,12 +464,12 @@ static void *client_main (void *arg)
     nreq = 1 + (int) (rand_r (&me->seed) % 5);
     for (k = 0; k < nreq && ! LD (clients_quit); k++)
     {
-      static const char kinds[] = "ssucapof";
+      static const char kinds[] = "ssucapofA";
       char kind = kinds[rand_r (&me->seed) % (sizeof (kinds) - 1)];
       long blen = 0; unsigned bsum = 0; int code;
       if ('u' == kind && ! f_susp) kind = 's';
       if ('c' == kind && ! f_cb) kind = 's';
-      if ('a' == kind && ! f_auth) kind = 's';
+      if (('a' == kind || 'A' == kind) && ! f_auth) kind = 's';
       if ('p' == kind && ! f_post) kind = 's';
       if ('o' == kind && ! f_opt) kind = 's';
       if ('f' == kind && ! f_fd) kind = 's';
@@ -460,31 +489,19 @@ static void *client_main (void *arg)
       }
       code = read_response (fd, nonce, sizeof (nonce), &blen, &bsum);
       if (code < 0) { INC (n_req_fail); break; }
-      if ('a' == kind && 401 == code && 0 != nonce[0])
+      if (('a' == kind || 'A' == kind) && 0 != nonce[0]) ST (last_nonce_len, (int) strlen (nonce));
+      if (('a' == kind || 'A' == kind) && 401 == code && 0 != nonce[0])
       {
         int tries;
         for (tries = 0; tries < 2 && 401 == code && 0 != nonce[0]; tries++)
         {
           unsigned ncv = (unsigned) (1 + tries + (rand_r (&me->seed) % 3)), cn = rand_r (&me->seed);
-          char rsp[33] = "00000000000000000000000000000000";
-          int hl;
-          if (0 != (rand_r (&me->seed) & 1))
-          {
-            /* the right answer: the check goes all the way (nonce-counter bookkeeping, then MHD_DAUTH_OK) */
-            char ha1[33], ha2[33], tmp[512];
-            md5hex ("user:" REALM ":pass", ha1);
-            md5hex ("GET:/a", ha2);
-            snprintf (tmp, sizeof (tmp), "%s:%s:%08x:c%u:auth:%s", ha1, nonce, ncv, cn, ha2);
-            md5hex (tmp, rsp);
-            INC (n_auth_ok_sent);
-          }
-          hl = snprintf (req, sizeof (req),
-                             "GET /a HTTP/1.1\r\nHost: h\r\nAuthorization: Digest username=\"user\", realm=\"" REALM "\", "
-                             "nonce=\"%s\", uri=\"/a\", qop=auth, nc=%08x, cnonce=\"c%u\", algorithm=MD5, "
-                             "response=\"%s\", opaque=\"opq\"\r\n\r\n",
-                             nonce, ncv, cn, rsp);
+          int right = (0 != (rand_r (&me->seed) & 1));
+          int hl = build_auth_req (req, sizeof (req), kind, nonce, ncv, cn, right);
+          if (right) INC (n_auth_ok_sent);
           if (0 != send_all (fd, req, (size_t) hl)) { code = -1; break; }
           code = read_response (fd, nonce, sizeof (nonce), &blen, &bsum);
+          if (code > 0 && 0 != nonce[0]) ST (last_nonce_len, (int) strlen (nonce));
         }
         if (code < 0) { INC (n_req_fail); break; }
       }
@@ -646,6 +663,47 @@ static void scenario_quietresume (void)
     if (0 == sc_quiet) break;
     if (0 == attempt) sc_quiet_retry = 1;
   }
+}
+
+/* C18: one daemon serves two digest algorithms on one nonce table of ONE slot: an MD5 nonce (44 characters) is
+ * presented while the slot holds a SHA-256 nonce (76 characters).  Every request must be answered (401 stale for
+ * the replaced nonce) and the daemon must stop: a path that leaves nnc_lock held blocks the next digest operation. */
+static int sc_mix = -1, sc_mix_step = 0;
+
+static int digest_get (int fd, char kind, const char *nonce_in, unsigned ncv, char *nonce_out, size_t nsz)
+{
+  char req[1024];
+  long blen = 0; unsigned bsum = 0;
+  int hl, code;
+  if (NULL == nonce_in) hl = snprintf (req, sizeof (req), "GET /%c HTTP/1.1\r\nHost: h\r\n\r\n", kind);
+  else hl = build_auth_req (req, sizeof (req), kind, nonce_in, ncv, 4711u + ncv, 1);
+  if (0 != send_all (fd, req, (size_t) hl)) return -1;
+  code = read_response (fd, nonce_out, nsz, &blen, &bsum);
+  if (code > 0 && NULL != nonce_out && 0 != nonce_out[0]) ST (last_nonce_len, (int) strlen (nonce_out));
+  return code;
+}
+
+static void scenario_mixnonce (void)
+{
+  char n1[256], n2[256], n3[256];
+  int f1, f2;
+  pin_mod = 1;
+  f1 = add_pair (0); f2 = add_pair (0);
+  if (f1 < 0 || f2 < 0) return;
+  resp_tmo = 2500;
+  sc_mix = 1;
+  do
+  {
+    sc_mix_step = 1; if (401 != digest_get (f1, 'a', NULL, 0, n1, sizeof (n1)) || 44 != strlen (n1)) break;   /* MD5 challenge */
+    sc_mix_step = 2; if (200 != digest_get (f1, 'a', n1, 1, n3, sizeof (n3))) break;                          /* nc=1: accepted */
+    sc_mix_step = 3; if (401 != digest_get (f2, 'A', NULL, 0, n2, sizeof (n2)) || 76 != strlen (n2)) break;   /* SHA-256 nonce takes the slot */
+    sc_mix_step = 4; if (401 != digest_get (f1, 'a', n1, 2, n3, sizeof (n3))) break;                          /* old MD5 nonce: 401 stale */
+    sc_mix_step = 5; if (401 != digest_get (f2, 'a', NULL, 0, n3, sizeof (n3))) break;                        /* other worker: new challenge */
+    sc_mix_step = 6; if (200 != digest_get (f2, 'a', n3, 1, n1, sizeof (n1))) break;                          /* ... and it works */
+    sc_mix = 0;
+  } while (0);
+  resp_tmo = 6000;
+  close (f1); close (f2);
 }
 
 /* ------------------------------------------------------------ library panic */
@@ -866,7 +924,10 @@ int main (int argc, char **argv)
   ops[n].option = MHD_OPTION_NOTIFY_CONNECTION; ops[n].value = (intptr_t) &conn_cb; ops[n++].ptr_value = NULL;
   /* 8 slots: almost every check meets a slot that another nonce has taken over (collisions); 64 slots: most checks
    * find their nonce and go through the nonce-counter bookkeeping */
-  nnc_size = (0 != ((seed + (unsigned) npool + (unsigned) strlen (mode)) & 1u)) ? 8 : 64;
+  {
+    static const int sizes[3] = { 1, 8, 64 };   /* 1: every nonce shares the slot (all collisions, MD5 and SHA-256 nonces mixed) */
+    nnc_size = has (feat, "mixnonce") ? 1 : sizes[(seed + (unsigned) npool + (unsigned) strlen (mode)) % 3u];
+  }
   ops[n].option = MHD_OPTION_NONCE_NC_SIZE; ops[n].value = nnc_size; ops[n++].ptr_value = NULL;
   ops[n].option = MHD_OPTION_DIGEST_AUTH_RANDOM; ops[n].value = 32; ops[n++].ptr_value = (void *) rnd;
   ops[n].option = MHD_OPTION_PER_IP_CONNECTION_LIMIT; ops[n].value = 10000; ops[n++].ptr_value = NULL;
@@ -891,6 +952,27 @@ int main (int argc, char **argv)
 
   pthread_create (&wth, NULL, &watchdog_main, (void *) (intptr_t) wd_ms);
   pthread_create (&rth, NULL, &resumer_main, (void *) (uintptr_t) (seed * 7919u + 1u));
+  if (has (feat, "mixnonce"))
+  {
+    /* deterministic scenario alone, then the stop under the watchdog */
+    scenario_mixnonce ();
+    printf ("result mode=%s pool=%s scenario=mixnonce nnc_size=%d mixnonce=%d mixnonce_step=%d mixed_len=%ld\n", mode, pool, nnc_size,
+            sc_mix, sc_mix_step, n_mixed_len);
+    fflush (stdout);
+    t0 = now_ms ();
+    ST (stop_begin, 1);
+    MHD_stop_daemon (d);
+    t1 = now_ms ();
+    ST (stop_done, 1);
+    pthread_join (rth, NULL);
+    pthread_join (wth, NULL);
+    MHD_destroy_response (resp_static); MHD_destroy_response (resp_cb); MHD_destroy_response (resp_post);
+    if (NULL != resp_fd) MHD_destroy_response (resp_fd);
+    bad = (0 != sc_mix || n_started_cb != n_closed_cb || n_handler != n_completed || 0 != n_double_close) ? 1 : 0;
+    printf ("result stop_ms=%ld auth_chk=%ld handler=%ld completed=%ld conn_started=%ld conn_closed=%ld bad=%d\n", (long) (t1 - t0),
+            n_auth_chk, n_handler, n_completed, n_started_cb, n_closed_cb, bad);
+    return bad ? 4 : 0;
+  }
   if (f_add)
   {
     pin_mod = (npool > 1) ? npool : 1;
@@ -960,13 +1042,13 @@ int main (int argc, char **argv)
             "susp=%ld resume=%ld auth_chk=%ld auth_req=%ld cb_blocks=%ld post=%ld opt=%ld abort=%ld handler=%ld completed=%ld "
             "conn_started=%ld conn_closed=%ld not_closed=%ld double_close=%ld double_complete=%ld body_mismatch=%ld "
             "pinadd=%d pinadd_ms=%ld quietresume=%d quietresume_ms=%ld quietresume_retry=%d fd=%ld auth_ok_sent=%ld auth_ok=%ld auth_stale=%ld "
-            "auth_respwrong=%ld auth_noncewrong=%ld nnc_size=%d ip_addrs=%ld ip_bind_fail=%ld panic=0 bad=%d\n",
+            "auth_respwrong=%ld auth_noncewrong=%ld nnc_size=%d auth_md5_sent=%ld auth_sha256_sent=%ld mixed_len=%ld ip_addrs=%ld ip_bind_fail=%ld panic=0 bad=%d\n",
             mode, pool, nclients, seed, (long) (t1 - t0), n_req_ok, n_req_fail, n_conn_add, n_conn_tcp, n_add_fail,
             n_susp, n_resume, n_auth_chk, n_auth_req, n_cb_blocks, n_post, n_opt, n_abort, n_handler, n_completed,
             n_started_cb, n_closed_cb, not_closed, n_double_close, n_double_complete, n_body_mismatch,
             sc_pinadd, sc_pin_ms, sc_quiet, sc_quiet_ms, (sc_quiet_retry && 0 == sc_quiet) ? 1 : 0, n_fd, n_auth_ok_sent, auth_res[(MHD_DAUTH_OK + 40) % 32],
             auth_res[(MHD_DAUTH_NONCE_STALE + 40) % 32], auth_res[(MHD_DAUTH_RESPONSE_WRONG + 40) % 32],
-            auth_res[(MHD_DAUTH_NONCE_WRONG + 40) % 32], nnc_size, ips, n_ip_bind_fail, bad);
+            auth_res[(MHD_DAUTH_NONCE_WRONG + 40) % 32], nnc_size, n_md5_chk_sent, n_sha_chk_sent, n_mixed_len, ips, n_ip_bind_fail, bad);
     fflush (stdout);
   }
   return bad ? 4 : 0;
